@@ -53,6 +53,12 @@ def check_case(spec, inst, res):
     if json.dumps(m._to_dict(), sort_keys=True, default=str) != model_snap: probs.append('generation / analysis modified the serialized model')
     g3 = AttackGraph(lg, m)
     if graph_obs(g3) != o1: probs.append('a generation after an analysis differs from the first one')
+    # the same model reached through a history of edits (built larger, a graph generated, the extras removed through the
+    # API) must give the same graph as the model built directly
+    from ..genrun import impl_generate
+    oc = impl_generate(copy.deepcopy(spec), copy.deepcopy(inst), churn=random.Random(len(inst['assets']) * 7919 + len(inst['links'])))
+    if 'error' in oc: probs.append('generation after removals through the API fails: ' + oc['error'])
+    elif oc != o1: probs.append('a model reached by adding and removing members / links / assets gives a different graph than the same model built directly')
     # attackers: attaching to the first graph after a second one was generated from the same model
     from maltoolbox.model import AttackerAttachment
     att = AttackerAttachment(name='att')
